@@ -1051,7 +1051,10 @@ func (x *fnv) execFor(s *State, st *ast.ForStmt, label string) (out flows) {
 		body.Assume(cond.Term)
 	}
 	headSnap := body.Clone()
+	savedLp := x.curLp
+	x.curLp = lp
 	f := x.execBlock(body, st.Body.List)
+	x.curLp = savedLp
 	out.absorb(flows{ret: f.ret, pan: f.pan})
 	ends := f.paths()
 	for _, j := range f.cont {
@@ -1140,6 +1143,9 @@ func (x *fnv) execRange(s *State, st *ast.RangeStmt, label string) (out flows) {
 		}
 		lp.role["$i"] = Value{T: it, Term: c.Int(0)}
 		lp.role["$len"] = Value{T: it, Term: n}
+		if kindOfRange(xt) == "slice" {
+			lp.role["$range"] = coll // the ranged slice (evaluated once)
+		}
 		lp.pre = s.Clone()
 		x.checkInvariants(s, lp, "init", st.Pos())
 		head := s.Clone()
@@ -1169,7 +1175,10 @@ func (x *fnv) execRange(s *State, st *ast.RangeStmt, label string) (out flows) {
 			assignKV(body, &kv, nil)
 		}
 		headSnap := body.Clone()
+		savedLp := x.curLp
+		x.curLp = lp
 		f := x.execBlock(body, st.Body.List)
+		x.curLp = savedLp
 		out.absorb(flows{ret: f.ret, pan: f.pan})
 		ends := f.paths()
 		for _, j := range f.cont {
@@ -1285,7 +1294,10 @@ func (x *fnv) execRangeMap(s *State, st *ast.RangeStmt, label string, lp *loopCt
 	}
 	x.rangeMap = append(x.rangeMap, rangedMap{mt, m})
 	headSnap := body.Clone()
+	savedLp := x.curLp
+	x.curLp = lp
 	f := x.execBlock(body, st.Body.List)
+	x.curLp = savedLp
 	x.rangeMap = x.rangeMap[:len(x.rangeMap)-1]
 	out.absorb(flows{ret: f.ret, pan: f.pan})
 	ends := []*State{f.next}
